@@ -21,8 +21,8 @@
          tags_to_asn1 t p = Some at -> abs t p v = Some av -> supr t p v = true -> x691 at av 0 = XViolation ->
          asz av + 512 < 2^40 -> exists e, marshal t p v = Err e
        [supr] (Proofs/AperStructRefDefs.v) = [sup] without its validity parts (an INTEGER may be out of range, a mandatory
-       pointer nil, a string / list of any size, Present = 0 or too large) + octets are octets; [asz] bounds the size of
-       any partial output.  The error arises where the constraint is checked (theorems c03_refusal_...) and propagates through every
+       pointer nil, a string / list of any size, Present = 0 or too large, an open type alternative other than the one
+       registered under the identifier) + octets are octets; [asz] bounds the size of any partial output.  The error arises where the constraint is checked (theorems c03_refusal_...) and propagates through every
        enclosing SEQUENCE, SEQUENCE OF, CHOICE, open type and pointer; components before the violating one are encoded.
 
    Classes excluded by [sup] (each is a recorded deviation or has no NGAP instance; witnesses below / in AperEncProofs):
@@ -33,11 +33,13 @@
      length 0 where X.691 wants one zero octet), OBJECT IDENTIFIER.
 
    TODO-PARTIAL (stated in full, not proved here):
-     aper_encode_refuses_open_mismatch : c03_aper_encode_refuses for a value whose violation is "open type not matching
-       its identifier" or a negative Present.  [supr] asks the alternative chosen in an open type to be the one registered
-       under the identifier's value (and Present >= 0), so these two kinds are covered where they are checked
-       (c03_refusal_open_type_mismatch, c03_refusal_unset_choice) but not through enclosing values.  Missing: the same
-       propagation argument with the encoder's own identifier lookup (get_ref) in place of the specification's. *)
+     aper_encode_refuses_all_kinds : c03_aper_encode_refuses also for a negative Present and for Present = 0 / too large
+       in the CHOICE that carries an open type's alternatives.  [supr] asks Present >= 0 everywhere and 0 < Present <
+       number of alternatives in an open type value (the other kinds - INTEGER out of range, string / list of illegal
+       size, Present = 0 or too large in a CHOICE, nil mandatory pointer, open type not matching its identifier - are
+       covered by c03_aper_encode_refuses through any nesting); these remaining cases are refused where they are checked
+       (c03_refusal_unset_choice) but their propagation through enclosing values is not proved.
+     The classes excluded by [sup] / [supr] are recorded deviations (their refusal or encoding is NOT what X.691 says). *)
 From Coq Require Import NArith ZArith List Bool String.
 Require Import GoSlice Bits AperCommon AperEnc AperDec Asn1 X691 Asn1Tags NgapSchema NgapGolden AperCheck X691Check
         AperEncProofs AperSchemaProofs AperBits AperBitsGet AperBitsPut AperStructPrim AperStructStr AperStructBits
